@@ -191,6 +191,8 @@ def run(ctx):
                          why_fail=f"children={kids!r} group row keeps {sorted(k for k in ('label', 'hint') if k in rowd)}")
             else:
                 r1.check(kids == [], f"row loop:table-list label helper[{desc}]", "no helper note without label and hint", w2j.loc(blk), why_fail=f"children={kids!r}")
+    from ..rowloop import row_prologue_obligations
+    row_prologue_obligations(ctx, r1, "C04.R1")
     # disabled rows produce nothing - also the second time the same dict is converted (rows handed to the loop are copies)
     from .c14 import fresh_rows_obligations
     fresh_rows_obligations(ctx, r1, "C04.R1")
